@@ -183,7 +183,11 @@ WM(gx, x, gw, y, asm) ==
       [] x.k = "bytes" -> IF Has(x, "isnil") /\ x.isnil THEN y.k = "nil" \/ (y.k \in {"bytes", "str"} /\ y.s = "")
                           ELSE (y.k = "bytes" /\ y.s = x.s) \/ (x.s = "" /\ y.k = "str" /\ y.s = "")
       [] x.k = "bigint" -> y.k = "int" /\ y.v = x.v
-      [] x.k = "bigfloat" -> y.k \in {"real", "int"} /\ (Has(x, "b64") /\ y.k = "real" /\ y.cls = "fin") => y.b64 = x.b64
+      [] x.k = "bigfloat" -> /\ y.k \in {"real", "int"}
+                             /\ ((Has(x, "b64") /\ y.k = "real" /\ y.cls = "fin") => y.b64 = x.b64)
+                             \* an infinite big.Float is the format's infinity of its sign, a finite one a number
+                             /\ IF x.inf THEN y.k = "real" /\ y.cls = (IF x.v = "+Inf" THEN "pinf" ELSE "ninf")
+                                ELSE y.k = "int" \/ y.cls = "fin"
       [] x.k = "bigrat" -> IF x.den = "1" THEN y.k = "int" /\ y.v = x.num
                            ELSE y.k = "str" /\ y.s = x.txt
       [] x.k = "time" -> TimeW(x, y)
@@ -270,6 +274,7 @@ SV(gx, x, gy, y, asm, tol) ==
       \* (p64) resp. as a float64 (r64), both computed by the harness
       [] x.k = "bigfloat" -> \/ y.k = "bigfloat" /\ (y.v = x.v \/ ("bigfloat-precision" \in tol /\ Has(x, "p64") /\ y.v = x.p64))
                              \/ y.k = "real" /\ "bigfloat-precision" \in tol /\ y.w = 64 /\ Has(x, "r64") /\ y.cls = "fin" /\ y.b = x.r64
+                             \/ x.inf /\ y.k = "real" /\ y.cls = (IF x.v = "+Inf" THEN "pinf" ELSE "ninf")             \* through interface{}
                              \/ y.k = "real" /\ y.w = 64 /\ Has(x, "b64") /\ y.cls = "fin" /\ y.b = x.b64   \* through interface{}
       [] x.k = "bigrat" -> \/ y.k = "bigrat" /\ y.num = x.num /\ y.den = x.den
                            \/ x.den = "1" /\ y.k \in {"int", "bigint"}
@@ -307,8 +312,14 @@ SameValue(ingraph, outgraph, tol) == SV(ingraph.nodes, ingraph.root, outgraph.no
 
 EncodedOK(e) == e.encpanic = "none" /\ e.encerr = "none"
 
+\* A value the format has no form for (the harness marks it: a time whose year is outside 0..9999, the date
+\* having four digits): the encoder has to say so - an error, not a panic and not some bytes.
+Unwritable(e) == Has(e, "unwritable") /\ e.unwritable
+RefusedOK(e) == e.encpanic = "none" /\ e.encerr # "none"
+
 \* C03: the encoder's bytes are exactly nvals well-formed values that denote the inputs
 C03OK(e) ==
+    IF Unwritable(e) THEN RefusedOK(e) ELSE
     /\ EncodedOK(e)
     /\ LET p == Parse(e.toks, e.nvals) IN
        /\ p.ok
@@ -323,6 +334,7 @@ C03OK(e) ==
 ITypesOK(e) == ~Has(e, "itypes") \/ \A i \in DOMAIN e.itypes : e.itypes[i].got = e.itypes[i].want
 
 C01Tol(e, tol) ==
+    IF Unwritable(e) THEN RefusedOK(e) ELSE
     /\ EncodedOK(e)
     /\ e.decpanic = "none" /\ e.outfault = "none"
     /\ IF e.in.root.k = "error"
@@ -334,6 +346,7 @@ C01OK(e) == C01Tol(e, {})
 \* file; "mismatch" when none does
 C01Why(e) ==
     IF C01OK(e) THEN ""
+    ELSE IF Unwritable(e) THEN "a value the format cannot hold was not refused with an error"
     ELSE IF ~EncodedOK(e) THEN "encode"
     ELSE IF e.decpanic # "none" THEN "decpanic"
     ELSE IF e.outfault # "none" THEN "wild-pointer"
@@ -379,7 +392,8 @@ C04Why(e) ==
     ELSE ""
 
 C03Why(e) ==
-    IF ~EncodedOK(e) THEN "encode"
+    IF Unwritable(e) THEN (IF RefusedOK(e) THEN "" ELSE "a value the format cannot hold was not refused with an error")
+    ELSE IF ~EncodedOK(e) THEN "encode"
     ELSE LET p == Parse(e.toks, e.nvals) IN
          IF ~p.ok THEN "malformed: " \o p.why
          ELSE IF WireMatch(e.in, p, 1) THEN "" ELSE "denotes another value"
